@@ -4,7 +4,7 @@
    asking the harness over the pipe. *)
 From Coq Require Import List NArith ZArith Bool Ascii String.
 From Authlib Require Import Base.Bytes Base.Base64 Base.BigEndian Base.PyVal.
-From Authlib Require Import Model.JWK Model.Claims Spec.ClaimsSpec Model.Resource Model.Scope.
+From Authlib Require Import Model.JWK Model.Claims Spec.ClaimsSpec Model.Resource Model.Scope Model.ClientAuth.
 Import ListNotations.
 Open Scope string_scope.
 
@@ -139,6 +139,27 @@ Definition dispatch_scope (fn : string) (a : pv) : option pv :=
           end)
   else None.
 
+Definition creq_of_pv (a : pv) : creq :=
+  {| r_auth := arg_opt_s "auth" a; r_form_id := arg_opt_s "form_id" a; r_form_secret := arg_opt_s "form_secret" a;
+     r_data_id := arg_opt_s "data_id" a; r_data_secret := arg_opt_s "data_secret" a;
+     r_assertion_type := arg_opt_s "assertion_type" a; r_assertion := arg_opt_s "assertion" a;
+     r_assertion_sig_ok := arg_b "assertion_sig_ok" a; r_assertion_wellformed := arg_b "assertion_wellformed" a;
+     r_assertion_claims := dict_of_pv (arg "assertion_claims" a) |}.
+
+Definition dispatch_clientauth (fn : string) (a : pv) : option pv :=
+  if String.eqb fn "extract_basic" then
+    Some (let '(u, p) := extract_basic (arg_opt_s "auth" a) in PList [pv_of_ostr u; pv_of_ostr p])
+  else if String.eqb fn "authenticate" then
+    let reg := map (fun c => {| c_id := arg_s "id" c; c_secret := arg_s "secret" c; c_method := arg_s "method" c |})
+                   (arg_l "registry" a) in
+    let used := arg_strs "used_jti" a in
+    Some (match authenticate (arg_s "token_url" a) (fun j => negb (list_in_str j used)) (arg_z "now" a)
+                  reg (creq_of_pv (arg "request" a)) (arg_strs "methods" a) (arg_s "endpoint" a) with
+          | AOk id m => PList [PStr "ok"; PStr id; PStr m]
+          | AInvalidClient st => PList [PStr "invalid_client"; PInt (Z.of_N st)]
+          end)
+  else None.
+
 Definition dispatch (fn : string) (a : pv) : pv :=
   if String.eqb fn "oracle_echo" then oracle "echo" a else
   match dispatch_jwk fn a with
@@ -152,6 +173,9 @@ Definition dispatch (fn : string) (a : pv) : pv :=
   | None =>
   match dispatch_scope fn a with
   | Some r => r
+  | None =>
+  match dispatch_clientauth fn a with
+  | Some r => r
   | None => err ("unknown function " ++ fn)
-  end end end end.
+  end end end end end.
 End D.
